@@ -331,11 +331,14 @@ def oracle_session(c, o):
             return h[3] == b[2]
         return b[2] < len(h[5]) and ops[b[4]](h[5][b[2]], b[5])
     prev_proc = 0
+    pause_pending = False
     for cmd, snap in zip(o["cmds"], o["snaps"]):
         if cmd[0] == "bp":
             bps.append(cmd)
         elif cmd[0] == "clear":
             bps = []
+        elif cmd[0] == "pause":
+            pause_pending = True
         elif cmd[0] in ("start", "step", "resume") and snap[0] != 3:
             seg = [h for h in evs[pos:] if h[4] <= snap[2]]
             pos += len(seg)
@@ -344,8 +347,15 @@ def oracle_session(c, o):
                 if hit and not out:
                     out.append(dict(clause="a breakpoint pauses right after the first delivery that satisfies it",
                                     breakpoint=hit[0], delivery=h[:5], command=cmd))
+            # ... and is then gone if one-shot: a free-running segment (start / resume, no pause requested) that
+            # stops paused must have stopped at a delivery satisfying a breakpoint that is still registered
+            if seg and cmd[0] in ("start", "resume") and snap[0] == 1 and not pause_pending and not out \
+                    and not any(sat(b, seg[-1]) for b in bps):
+                out.append(dict(clause="a one-shot breakpoint is gone after it fired: the run paused after a delivery that satisfies no registered breakpoint",
+                                delivery=seg[-1][:5], command=cmd, registered=bps[:4]))
             if seg:
                 bps = [b for b in bps if not (b[3] and sat(b, seg[-1]))]
+            pause_pending = False
     ev_hooks = [h[2] for h in o["hook_log"] if h[0] == "event"]
     delivered_ids = [p[5] for p in o["pops"] if p[4] == "delivered"]
     if last is not None and last[0] == 3:
